@@ -42,6 +42,17 @@ func extraSpecs() []*PropertySpec {
 		{ID: "C02", Rules: []string{"HANDLER-DEMOTE"}, Decided: "a candidate that recognises the leader of its term stops campaigning in that term"},
 		{ID: "C16", Rules: []string{"PREVOTE-TOKEN"}, Decided: "a campaign raises the term only on the strength of a prevote won for this attempt (a token set by a prevote quorum and spent by the increment): a candidate whose election timed out asks again"},
 		{ID: "C06", Rules: []string{"RECORD-OFFSET"}, Decided: "the persistent log agrees with the in-memory one after a conflict was repaired: Truncate cuts the file by the entry's Offset, so every entry the log keeps carries the position of its own record"},
+		{ID: "C01", Rules: []string{"IS-HANDLER"}, Decided: "a follower keeps its log across a snapshot installation only if its entry at the snapshot's last index has the snapshot's last term (otherwise the state machine is restored and the log discarded): a stale suffix that merely reaches that index is never adopted, committed and applied"},
+		// ---- rules borrowed across properties: the seeded changes showed that a change written against one property is
+		// often reported only by a rule of a property it is stated in terms of (state-machine safety rests on election
+		// safety, log matching and the persistent log; acknowledged operations rest on the log's file format; ...).
+		{ID: "C01", Rules: []string{"VOTE-GRANT", "TERM-VOTE", "STATE-TRANSITIONS", "COUNT-VOTES", "AE-HANDLER", "SNAP-LABEL", "SEND-LABEL"},
+			Decided: "state-machine safety rests on election safety (C02), log matching (C06) and exact snapshots (C10): their rules are evaluated with it"},
+		{ID: "C03", Rules: []string{"COMMIT-FOLLOWER", "AE-HANDLER", "IS-HANDLER"}, Decided: "what a follower commits and applies (and so what a later leader acknowledges) is bounded by what it verified against the leader's log"},
+		{ID: "C04", Rules: []string{"RECORD-OFFSET", "COMPACT-KEEP", "REPLAY-TAIL"}, Decided: "an acknowledged entry stays on disk across truncation, compaction and reopen of the bundled log"},
+		{ID: "C06", Rules: []string{"LOG-WSP", "COMPACT-KEEP"}, Decided: "the persistent log is written and compacted faithfully to the in-memory one"},
+		{ID: "C07", Rules: []string{"TERM-VOTE", "STATE-TRANSITIONS", "COUNT-VOTES", "AE-HANDLER"}, Decided: "leader completeness rests on one vote per term, a real-vote quorum and log matching"},
+		{ID: "C11", Rules: []string{"RECORD-OFFSET", "LOG-WSP"}, Decided: "entries that survive a compaction keep the position of their own record, so a later truncation cuts the file where the log says"},
 		{ID: "C10", Rules: []string{"SEND-LABEL"}, Decided: "a snapshot request is labelled with the metadata of the very file whose bytes it carries, not with the node's boundary"},
 		{ID: "C11", Rules: []string{"SEND-LABEL"}, Decided: "a snapshot request is labelled with the metadata of the very file whose bytes it carries"},
 		{ID: "C11", Rules: []string{"COMPACT-KEEP"}, Decided: "Compact keeps the boundary entry as placeholder plus the suffix, DiscardEntries leaves exactly the placeholder, LastIndex/LastTerm/NextIndex read the last element"},
